@@ -525,14 +525,27 @@ func jsonStr(v any) string {
 }
 
 func run(c *lib.Ctx) {
-	ops := alphabet(c.Quick())
-	c.Note("alphabet", fmt.Sprintf("%d operations over identifier pool %v", len(ops), pool(c.Quick())))
-	depth := 3
-	workers := 16
-	if !c.Quick() {
-		depth = 4
+	if c.Quick() {
+		ops := alphabet(true)
+		c.Note("alphabet", fmt.Sprintf("%d operations over identifier pool %v", len(ops), pool(true)))
+		b := &lib.BFS[op]{C: c, Ops: ops, Exec: exec, MaxDepth: 3, Workers: 16, Confirm: true}
+		b.Run()
+		return
 	}
-	b := &lib.BFS[op]{C: c, Ops: ops, Exec: exec, MaxDepth: depth, Workers: workers, Confirm: true}
+	// Thorough, pass 1: the quick alphabet (2 names, 8 colliding identifiers) until
+	// no new state appears (closure) or depth 8.
+	ops := alphabet(true)
+	c.Note("alphabet_pass1", fmt.Sprintf("%d operations over identifier pool %v, explored to closure", len(ops), pool(true)))
+	b := &lib.BFS[op]{C: c, Ops: ops, Exec: exec, MaxDepth: 8, Workers: 16, Confirm: true}
+	b.Run()
+	c.Note("pass1_depth_completed", fmt.Sprint(c.MaxOf("max_depth")))
+	if c.Expired() {
+		return
+	}
+	// Pass 2: 3 names, 16 identifiers; depth 3 as far as the budget allows.
+	ops = alphabet(false)
+	c.Note("alphabet_pass2", fmt.Sprintf("%d operations over identifier pool %v", len(ops), pool(false)))
+	b = &lib.BFS[op]{C: c, Ops: ops, Exec: exec, MaxDepth: 3, Workers: 16, Confirm: true}
 	b.Run()
 }
 
